@@ -1,5 +1,6 @@
 import PsV.Proofs.Glam
 import PsV.Proofs.GlamCont
+import PsV.Proofs.GlamIdx
 import PsV.Props.C01
 /-!
 # C17 — grid evaluation is the tensor-product B-spline sum, computed by mode products
@@ -207,6 +208,65 @@ theorem grideval_ne_pointwise_1d (d : Dim α) (x : α) (hm : d.KnotsMono)
     rw [specSum_1d_unit _ _ a (by simpa using han) (by omega)]
     simp [List.getD_eq_getElem?_getD, han, derivOrder, l]
 
+/-! ## 6. the `int` index arithmetic of `slicemultiply` cannot overflow below 2³¹ columns
+
+`PsV/Model/GlamIdx.lean` restates the index expressions of `slicemultiply` in the C types they are written
+in (`int cols, j, stride`, `unsigned int` ranges and indices, `long` triplet indices): products are taken
+modulo 2³² and converted to `int`, `j/stride` and `j % stride` are signed, a zero divisor is undefined
+behaviour (`CRes.ub`).  The theorems below say that with fewer than 2³¹ columns in the flattened section
+none of this can be observed: the C-typed routines *are* the natural-number definitions of sections 1–3
+(the ones the driver executes).  The bound is decidable (`sliceIdxSafe`, `gridIdxSafe`) and the check
+evaluates it on every generated case. -/
+
+/-- `cols` (an `int` product of `unsigned int` ranges) is the exact number of columns. -/
+theorem slicemultiply_cols_exact (ranges : List Nat) (dim : Nat)
+    (hpos : ∀ i, i < ranges.length → i ≠ dim → 0 < ranges.getD i 0)
+    (hb : colsOf ranges dim < 2147483648) : colsC ranges dim = colsOf ranges dim :=
+  colsC_eq ranges dim hpos hb
+
+/-- The flattened column the C code accumulates in a `long` (`stride*index` in `unsigned int`, `stride`
+in `int`) is the exact mixed-radix number `flattenCol`, and it is below the number of columns. -/
+theorem slicemultiply_flatten_exact (ranges idx : List Nat) (dim : Nat) (hv : IdxIn idx ranges)
+    (hd : dim < ranges.length) (hb : colsOf ranges dim < 2147483648) :
+    flattenColC ranges idx dim = ((flattenCol ranges idx dim : Nat) : Int) ∧
+      flattenCol ranges idx dim < colsOf ranges dim :=
+  flattenColC_eq ranges idx dim hv hd hb
+
+/-- The un-flattening loop in `int` arithmetic (`stride /= range`, `j/stride`, `j % stride`) divides by
+no zero and produces the exact index tuple `unflattenIdx`. -/
+theorem slicemultiply_unflatten_exact (ranges : List Nat) (dim row col : Nat) (hd : dim < ranges.length)
+    (hpos : ∀ k, k < ranges.length → k ≠ dim → 0 < ranges.getD k 0)
+    (hb : colsOf ranges dim < 2147483648) (hrow : row < 4294967296) (hcol : col < colsOf ranges dim) :
+    unflattenIdxC ranges dim row col = .ok (unflattenIdx ranges dim row col) :=
+  unflattenIdxC_eq ranges dim row col
+    (fun k hk => hpos k ((mem_loopDims hd).mp hk).1 ((mem_loopDims hd).mp hk).2)
+    (by rw [← colsOf_eq_mrProd ranges dim hd]; exact hb) hrow (by omega)
+
+/-- **No overflow in `slicemultiply`.**  For a tensor that lists valid indices only, if the other index
+ranges multiply to less than 2³¹ and `b` has fewer than 2³² columns (`sliceIdxSafe`), `slicemultiply` with
+its index arithmetic in C types meets no undefined behaviour and returns exactly `sliceMultiply a b dim`
+(`.fail` = the dimension check, as before). -/
+theorem slicemultiply_int_arith_exact (a : NdSparse α) (b : Mat α) (dim : Nat) (ha : a.WF)
+    (hd : dim < a.ranges.length) (hsafe : sliceIdxSafe a.ranges dim b.ncol = true) :
+    sliceMultiplyC a b dim = CRes.ofOption (sliceMultiply a b dim) :=
+  sliceMultiplyC_eq a b dim ha hd hsafe
+
+/-- **No overflow in `grideval`.**  If at every step of the loop over the dimensions the section has
+fewer than 2³¹ columns (`gridIdxSafe` on the table's `naxes` and the grid lengths — the predicate the
+check evaluates on each case), `grideval` with C-typed index arithmetic in every `slicemultiply` is
+`gridEval`. -/
+theorem grideval_int_arith_exact (dims : List (Dim α)) (coef : Int → α) (coords : List (List α))
+    (hwf : GridTableWF dims)
+    (hsafe : gridIdxSafe (dims.map (·.naxes)) 0 (coords.map List.length) = true) :
+    gridEvalC dims coef coords = CRes.ofOption (gridEval dims coef coords) := by
+  unfold gridEvalC gridEval
+  by_cases h : coords.length ≠ dims.length
+  · rw [if_pos h, if_pos h]; rfl
+  · rw [if_neg h, if_neg h]
+    apply gridLoopC_eq dims coords 0 _ (coefTensor_wf dims coef hwf.strides hwf.ne)
+    · rw [coefTensor_eq]; simp
+    · rw [coefTensor_eq]; exact hsafe
+
 end
 
 /-- Non-vacuity: a 2×3×2 tensor over `Rat` with two entries, a 3×4 matrix, `dim = 1`. -/
@@ -376,5 +436,20 @@ example :
       (2 : Rat) < d.knots (((2 : Nat) : Int) + d.order + 1) ∧ d.knots d.naxes ≤ 2 := by
   refine ⟨degTable_knotsMono _ (by simp [degTable]), rfl, rfl, by decide, by norm_num, by norm_num, by norm_num,
     by norm_num⟩
+
+/-- **The bound is sharp.**  Index ranges `65536 × 32768 × 1`, `dim = 2`: the section has exactly 2³¹
+columns and the `int` product `cols` is `-2147483648`; with `65536 × 65536 × 1` it is `0`. -/
+theorem slicemultiply_cols_overflow_witness :
+    colsOf [65536, 32768, 1] 2 = 2147483648 ∧ colsC [65536, 32768, 1] 2 = -2147483648 ∧
+    colsOf [65536, 65536, 1] 2 = 4294967296 ∧ colsC [65536, 65536, 1] 2 = 0 := by
+  decide
+
+/-- Non-vacuity of section 6: a 3×4×2 tensor, `dim = 1`, an entry, its flattened column; and the grid
+predicate on a 2-d table with `naxes = (4, 2)` and a `3 × 1` grid. -/
+example :
+    IdxIn [2,3,1] [3,4,2] ∧ colsOf [3,4,2] 1 = 6 ∧ flattenColC [3,4,2] [2,3,1] 1 = 5 ∧
+    unflattenIdxC [3,7,2] 1 6 5 = .ok [2,6,1] ∧ sliceIdxSafe [3,4,2] 1 7 = true ∧
+    gridIdxSafe [4,2] 0 [3,1] = true := by
+  refine ⟨⟨rfl, by decide⟩, by decide, by decide, by rfl, by decide, by decide⟩
 
 end PsV
